@@ -2,7 +2,10 @@
 
 package metadata
 
-import "time"
+import (
+	"context"
+	"time"
+)
 
 // VerifShiftHeartbeats advances virtual time by d for the persisted consumer groups: every
 // stored HeartbeatAt moves d into the past (same format the coordinator writes).
@@ -20,3 +23,30 @@ func (s *InMemoryStore) VerifShiftHeartbeats(d time.Duration) {
 		}
 	}
 }
+
+// VerifShiftHeartbeats is the same for the etcd store: every stored group is read, shifted and written back.
+func (s *EtcdStore) VerifShiftHeartbeats(d time.Duration) {
+	ctx := context.Background()
+	groups, err := s.ListConsumerGroups(ctx)
+	if err != nil {
+		return
+	}
+	for _, g := range groups {
+		changed := false
+		for _, m := range g.Members {
+			if m == nil || m.HeartbeatAt == "" {
+				continue
+			}
+			if t, err := time.Parse(time.RFC3339Nano, m.HeartbeatAt); err == nil {
+				m.HeartbeatAt = t.Add(-d).UTC().Format(time.RFC3339Nano)
+				changed = true
+			}
+		}
+		if changed {
+			_ = s.PutConsumerGroup(ctx, g)
+		}
+	}
+}
+
+// VerifSetMetadata replaces the topic metadata snapshot the etcd store answers Metadata() from.
+func (s *EtcdStore) VerifSetMetadata(state ClusterMetadata) { s.metadata.Update(state) }
